@@ -160,7 +160,8 @@ Definition srel (x : st) (m : kvmap) : Prop := wf_st x /\ view x = m.
 Record RS (r : rstate) (sr : sstate) : Prop := {
   rs_store : R (r_store r) (ss_store sr);
   rs_batches : Forall2 (brel (r_store r)) (r_batches r) (ss_batches sr);
-  rs_snaps : Forall2 srel (r_snaps r) (ss_snaps sr)
+  rs_snaps : Forall2 srel (r_snaps r) (ss_snaps sr);
+  rs_lives : r_lives r = ss_lives sr
 }.
 
 Lemma brel_sk s s' mb sb : sk s' s -> brel s mb sb -> brel s' mb sb.
@@ -212,10 +213,12 @@ Definition op_wf (o : op) : Prop :=
   | OBDel _ k => wf_bytes k = true
   | OSnap h => h_wf h
   | OSIter _ p _ => wf_bytes (ob p) = true
+  | OLit _ h p _ => h_wf h /\ wf_bytes (ob p) = true
   | _ => True
   end.
 
-Definition erase (o : obs) : obs := match o with BCompact _ => BNone | x => x end.
+Definition erase (o : obs) : obs :=
+  match o with BCompact _ => BNone | BCompactErr _ => BNone | x => x end.
 
 Lemma R_put x y k v : wf_bytes k = true -> R x y -> R (st_put x k v) (swrite y [WPut k v]).
 Proof.
@@ -226,12 +229,12 @@ Proof.
   intros W H. rewrite st_del_write. apply R_write; auto; try (constructor; [exact W|constructor]).
 Qed.
 
-Theorem step_refines ideal r sr o : RS r sr -> op_wf o ->
-  RS (fst (run_op ideal r o)) (fst (spec_run_op sr o)) /\
-  map erase (snd (run_op ideal r o)) = snd (spec_run_op sr o).
+Lemma step1_refines ideal r sr o : RS r sr -> op_wf o ->
+  RS (fst (run_op1 ideal r o)) (fst (spec_run_op1 sr o)) /\
+  map erase (snd (run_op1 ideal r o)) = snd (spec_run_op1 sr o).
 Proof.
-  intros [HR HB HS] W.
-  destruct o as [h k v|h k|h k|h k|h p s0|b h|b k v|b k|b|b|b|d|d|d|h|i k|i k|i p s0|h a l];
+  intros [HR HB HS HL] W.
+  destruct o as [h k v|h k|h k|h k|h p s0|b h|b k v|b k|b|b|b|d|d|d|h|i k|i k|i p s0|h a l|h a l|i h p s0|i n|i];
     cbn [op_wf] in W.
   - (* put *) destruct W as [Wh Wk]. cbn. split; [|reflexivity].
     assert (K : sk (h_upd h (fun x => st_put x k v) (r_store r)) (r_store r))
@@ -257,7 +260,7 @@ Proof.
   - (* bnew *) cbn. split; [|reflexivity]. constructor; cbn; auto.
     apply Forall2_set_nth; auto using brel_default.
     repeat split; cbn; auto.
-  - (* bput *) unfold run_op, spec_run_op.
+  - (* bput *) unfold run_op1, spec_run_op1.
     pose proof (Forall2_nth _ _ _ _ _ b HB (brel_default (r_store r))) as Hb.
     unfold get_batch, sget_batch.
     destruct (nth b (r_batches r) (h0, [])) as [h stored].
@@ -268,7 +271,7 @@ Proof.
     repeat split; cbn; auto.
     + unfold st_badd. now rewrite M, map_app.
     + apply Forall_app. split; auto; repeat constructor; exact W.
-  - (* bdel *) unfold run_op, spec_run_op.
+  - (* bdel *) unfold run_op1, spec_run_op1.
     pose proof (Forall2_nth _ _ _ _ _ b HB (brel_default (r_store r))) as Hb.
     unfold get_batch, sget_batch.
     destruct (nth b (r_batches r) (h0, [])) as [h stored].
@@ -279,7 +282,7 @@ Proof.
     repeat split; cbn; auto.
     + unfold st_badd. now rewrite M, map_app.
     + apply Forall_app. split; auto; repeat constructor; exact W.
-  - (* bwrite *) unfold run_op, spec_run_op.
+  - (* bwrite *) unfold run_op1, spec_run_op1.
     pose proof (Forall2_nth _ _ _ _ _ b HB (brel_default (r_store r))) as Hb.
     unfold get_batch, sget_batch.
     destruct (nth b (r_batches r) (h0, [])) as [h stored].
@@ -292,7 +295,7 @@ Proof.
     + apply R_h_upd; auto. rewrite M. apply (R_write (h_view h (r_store r))); auto.
       now apply R_h_view.
     + eapply batches_sk; eauto.
-  - (* breset *) unfold run_op, spec_run_op.
+  - (* breset *) unfold run_op1, spec_run_op1.
     pose proof (Forall2_nth _ _ _ _ _ b HB (brel_default (r_store r))) as Hb.
     unfold get_batch, sget_batch.
     destruct (nth b (r_batches r) (h0, [])) as [h stored].
@@ -301,7 +304,7 @@ Proof.
     split; [|reflexivity]. constructor; cbn; auto.
     apply Forall2_set_nth; auto using brel_default.
     repeat split; cbn; auto.
-  - (* breplay *) unfold run_op, spec_run_op.
+  - (* breplay *) unfold run_op1, spec_run_op1.
     pose proof (Forall2_nth _ _ _ _ _ b HB (brel_default (r_store r))) as Hb.
     unfold get_batch, sget_batch.
     destruct (nth b (r_batches r) (h0, [])) as [h stored].
@@ -337,20 +340,38 @@ Proof.
     destruct (nth_error (r_snaps r) i), (nth_error (ss_snaps sr) i); try contradiction; auto.
     destruct H as [Wx <-]. cbn. now rewrite st_iter_view.
   - (* compact *) cbn. split; [constructor; auto|reflexivity].
+  - (* engine compact *) cbn. split; [constructor; auto|reflexivity].
+  - (* live iterator: create *) destruct W as [Wh Wp]. cbn. split; [|reflexivity].
+    pose proof (R_h_view h _ _ Wh HR) as Hv.
+    constructor; cbn; auto.
+    rewrite (st_iter_view _ _ _ (R_wf _ _ Hv) Wp), (R_view _ _ Hv), HL. reflexivity.
+  - (* live iterator: next *) cbn. rewrite HL. unfold live_next.
+    destruct (nth i (ss_lives sr) None); cbn; (split; [constructor; cbn; auto|reflexivity]).
+  - (* live iterator: release *) cbn. split; [|reflexivity]. constructor; cbn; auto. now rewrite HL.
 Qed.
 
-Lemma run_ops_refines ideal ops : forall r sr, RS r sr -> Forall op_wf ops ->
-  map erase (run_ops ideal r ops) = spec_run_ops sr ops.
+Theorem step_refines lsafe ideal r sr o : RS r sr -> op_wf o ->
+  RS (fst (run_op lsafe ideal r o)) (fst (spec_run_op lsafe sr o)) /\
+  map erase (snd (run_op lsafe ideal r o)) = snd (spec_run_op lsafe sr o).
+Proof.
+  intros H W. destruct (step1_refines ideal r sr o H W) as [[HR HB HS HL] E].
+  unfold run_op, spec_run_op.
+  destruct (run_op1 ideal r o) as [r' om]. destruct (spec_run_op1 sr o) as [sr' os]. cbn in *.
+  split; auto. constructor; cbn; auto. now rewrite HL.
+Qed.
+
+Lemma run_ops_refines lsafe ideal ops : forall r sr, RS r sr -> Forall op_wf ops ->
+  map erase (run_ops lsafe ideal r ops) = spec_run_ops lsafe sr ops.
 Proof.
   induction ops as [|o ops IH]; intros r sr H F; [reflexivity|].
   inversion F; subst. cbn [run_ops spec_run_ops].
-  destruct (step_refines ideal r sr o H H2) as [H' E].
-  destruct (run_op ideal r o) as [r' om]. destruct (spec_run_op sr o) as [sr' os]. cbn in H', E.
+  destruct (step_refines lsafe ideal r sr o H H2) as [H' E].
+  destruct (run_op lsafe ideal r o) as [r' om]. destruct (spec_run_op lsafe sr o) as [sr' os]. cbn in H', E.
   rewrite map_app, E. f_equal. now apply IH.
 Qed.
 
-Theorem run_refines ideal s0 ss0 ops : R s0 ss0 -> Forall op_wf ops ->
-  map erase (run ideal s0 ops) = spec_run ss0 ops.
+Theorem run_refines lsafe ideal s0 ss0 ops : R s0 ss0 -> Forall op_wf ops ->
+  map erase (run lsafe ideal s0 ops) = spec_run lsafe ss0 ops.
 Proof.
   intros H F. unfold run, spec_run. apply run_ops_refines; auto.
   constructor; cbn; auto.
